@@ -158,10 +158,9 @@ def absmin(
     Note:
         The signs of values in ``data`` are preserved.
     """
-    return torch.copysign(
-        torch.amin(data.abs(), dim, keepdim=keepdim),
-        torch.amin(data, dim, keepdim=keepdim),
-    )
+    mag = torch.amin(data.abs(), dim, keepdim=True)
+    keep = torch.logical_or(data.abs() == mag, data.isnan())
+    return torch.amin(torch.where(keep, data, float("inf")), dim, keepdim=keepdim)
 
 
 def max(
@@ -212,10 +211,9 @@ def absmax(
     Note:
         The signs of values in ``data`` are preserved.
     """
-    return torch.copysign(
-        torch.amax(data.abs(), dim, keepdim=keepdim),
-        torch.amax(data, dim, keepdim=keepdim),
-    )
+    mag = torch.amax(data.abs(), dim, keepdim=True)
+    keep = torch.logical_or(data.abs() == mag, data.isnan())
+    return torch.amax(torch.where(keep, data, float("-inf")), dim, keepdim=keepdim)
 
 
 def mean(
